@@ -467,12 +467,13 @@ class FileDownloader(Resource, object):
             # generate multipart/byteranges.
             if ranges is not None:
                 first, last = ranges[0]
+                # a suffix range longer than the file starts at its beginning
+                first = max(0, first)
 
                 if first >= filesize:
                     raise WebError('First beyond end of file',
                                    http.REQUESTED_RANGE_NOT_SATISFIABLE)
                 else:
-                    first = max(0, first)
                     last = min(filesize-1, last)
 
                     req.setResponseCode(http.PARTIAL_CONTENT)
